@@ -75,7 +75,9 @@ func verif_arg[T any](i int) T { var z T; return z }
 // ---- ghost state (C27): index-writer operations performed by the table writer
 
 var verif_ghost struct {
-	kOps int // Insert / Update / Delete calls made on index writers so far
+	kOps    int // Insert / Update / Delete calls made on index writers so far
+	kSecDel int // Delete calls made on a keyless secondary writer so far
+	kSecIns int // Insert calls made on a keyless secondary writer so far
 }
 
 func verif_x_iw_Insert(w indexWriter, ctx context.Context, sqlRow sql.Row) (err error) {
